@@ -7,6 +7,9 @@ import (
 
 const maxEntries = 128
 
+// the maximum length of an interval, must be at least 8192 and well below 2^15
+const maxCount = 16384
+
 type Map struct {
 	mu        sync.Mutex
 	started   bool
@@ -80,7 +83,14 @@ func addMapping(m *Map, seqno, delta, pidDelta uint16) {
 
 	i := m.lastEntry
 	if delta == m.entries[i].delta && pidDelta == m.entries[i].pidDelta {
-		m.entries[m.lastEntry].count = seqno - m.entries[i].first + 1
+		count := seqno - m.entries[i].first + 1
+		if count > maxCount {
+			// forget the oldest part of the interval, so that
+			// comparisons modulo 2^16 remain meaningful
+			m.entries[i].first += count - maxCount
+			count = maxCount
+		}
+		m.entries[i].count = count
 		return
 	}
 
